@@ -227,6 +227,12 @@ def part_b_c(chk, tier):
                                         chk.violation("cvxpy:%s:beaten_by_truth:%s" % (cfgk, family), "loss at the CVXPY/SCS estimate %.9g, at the truth %.9g [%s]" % (fcv, ft, tag), case)
                                     if dname == "exact" and np.max(np.abs(cvx - np.asarray(tr2.to_var()))) > 5e-3:
                                         chk.violation("cvxpy:%s:exact_data:%s" % (cfgk, family), "CVXPY/SCS on exact data of a physical object deviates by %.3g [%s]" % (float(np.max(np.abs(cvx - np.asarray(tr2.to_var())))), tag), case)
+                                    # the same estimate from a loss object that served other tomographies before
+                                    cv2 = cvxpy_estimate(qt, data, family, reuse=True)
+                                    if cv2 is None or cv2.shape != cvx.shape or np.max(np.abs(cv2 - cvx)) > 1e-4:
+                                        chk.violation("cvxpy:%s:reused_loss_object:%s" % (cfgk, family),
+                                                      "a CVXPY loss object used for other tomographies before gives %s, a fresh one %s [%s]" % (
+                                                          "an exception" if cv2 is None else np.round(cv2, 5), np.round(cvx, 5), tag), case)
                                     # the CVXPY-backed estimate is a minimiser too: backtracking (a physical competitor) must not beat it
                                     gap = (fcv - f_est) / (1 + abs(f_est))
                                     chk.notes["cvxpy_max_excess_loss"] = max(chk.notes.get("cvxpy_max_excess_loss", 0.0), float(gap))
@@ -259,7 +265,10 @@ def part_b_c(chk, tier):
     chk.sample(dict(trace_lines=slim[:3]))
 
 
-def cvxpy_estimate(qt, data, family):
+_CVX_REUSED = {}
+
+
+def cvxpy_estimate(qt, data, family, reuse=False):
     try:
         from quara.interface.cvxpy.qtomography.standard.estimator import CvxpyLossMinimizationEstimator
         from quara.interface.cvxpy.qtomography.standard.loss_function import CvxpyLossFunctionOption, CvxpyRelativeEntropy, CvxpyUniformSquaredError
@@ -268,7 +277,9 @@ def cvxpy_estimate(qt, data, family):
         import warnings
         with warnings.catch_warnings():
             warnings.simplefilter("ignore")
-            res = quiet(CvxpyLossMinimizationEstimator().calc_estimate, qt, [(n, f.copy()) for n, f in data], L(), CvxpyLossFunctionOption(),
+            # reuse=True: ONE long-lived loss object per family, handed every tomography of the run in turn (an estimator keeps its loss)
+            loss_obj = _CVX_REUSED.setdefault(family, L()) if reuse else L()
+            res = quiet(CvxpyLossMinimizationEstimator().calc_estimate, qt, [(n, f.copy()) for n, f in data], loss_obj, CvxpyLossFunctionOption(),
                         CvxpyMinimizationAlgorithm(), CvxpyMinimizationAlgorithmOption(name_solver="scs", eps_tol=1e-9), is_computation_time_required=True)
         return np.asarray(res.estimated_var)
     except Exception:
